@@ -105,7 +105,7 @@ static int convert_to_standalone(cif_map_t *map) {
                 if (next >= item_count) FAIL(soft, CIF_INTERNAL_ERROR);
                 key_copies[next] = cif_u_strdup(item->key_orig);
 
-                if (key_copies[next++] != NULL) {
+                if (key_copies[next] != NULL) {
                     next += 1;
                 } else {
                     FAIL(soft, CIF_MEMORY_ERROR);
